@@ -109,6 +109,10 @@ fn gen_abstract_heavy(src: &mut Src) -> rawlib::RLib {
     RLib { name: "abslib".into(), units: src.below(3) as u8, layers, cells, listing }
 }
 
+thread_local! {
+    /// toggled by every raw-to-gds materialisation: whether the handles `build` returns are dropped before the export
+    static DROP_HANDLES: std::cell::Cell<bool> = const { std::cell::Cell::new(false) };
+}
 // Each conversion: description (choices) -> (transcript, number of keys in the largest unordered map on the path)
 fn conv_raw_to_gds(src: &mut Src) -> Result<(String, usize), String> {
     // one input in four names shapes on layers that have no label purpose (export is then refused, or the
@@ -123,11 +127,29 @@ fn conv_raw_to_gds(src: &mut Src) -> Result<(String, usize), String> {
     }
     // only cells without a layout are exported from their abstract
     let keys = m.cells.iter().filter(|c| !c.has_layout).filter_map(|c| c.abs.as_ref()).flat_map(|a| a.ports.iter().map(|p| p.shapes.len())).max().unwrap_or(0);
+    // one library in twelve has a polygon with a vertex beyond the 32-bit range, after some that are inside:
+    // the export is refused part of the way into the shape (what the next export returns may not depend on that)
+    let beyond = src.prob(1, 12);
+    if beyond {
+        if let Some(c) = m.cells.iter_mut().find(|c| c.has_layout) {
+            c.shapes.insert(0, rawlib::RShape { layer: 0, purpose: 0, geom: rawlib::RGeom::Poly(vec![(7, 7), (9, 7), (9, 3_000_000_000), (7, 9)]), net: None });
+        }
+    }
     let b = rawlib::build(&m);
-    let t = match b.lib.to_gds() {
+    // the caller may or may not keep handles on the cells while the library is exported: every other
+    // materialisation drops them first (the result may not depend on who else holds a cell)
+    let rawlib::Built { lib, cells, .. } = b;
+    if DROP_HANDLES.with(|c| {
+        let v = !c.get();
+        c.set(v);
+        v
+    }) {
+        drop(cells);
+    }
+    let t = match lib.to_gds() {
         Ok(g) => mask_dates(g),
         // (the debug text of a refusal may print a whole Layer, hash maps included: not part of the result)
-        Err(e) if no_label_purpose || nonrect => {
+        Err(e) if no_label_purpose || nonrect || beyond => {
             let mut s = format!("{:?}", e);
             crate::engine::clip(&mut s, 40);
             format!("ERR {}", s)
